@@ -25,6 +25,9 @@ pub(crate) struct EventAccessTracker
 
 impl EventAccessTracker
 {
+    #[cfg(ukoehb_bevy_cobweb_verif)]
+    pub(crate) fn verif_state(&self) -> (usize, bool) { (self.prepared.len(), self.currently_reacting) }
+
     /// Caches metadata for an entity reaction.
     pub(crate) fn prepare(&mut self, system: SystemCommand, data_entity: Entity)
     {
